@@ -1,5 +1,6 @@
 """C16 Loops and conditionals render exactly what their unrolling renders (control skeleton)."""
 from sa import rules as R
+from sa import discharge as D
 from sa.prog import P, Callee, op_place, op_const, const_str, const_int
 from props.C01_loops import every_cycle_passes
 
@@ -395,4 +396,19 @@ def extent_accumulation(prog, chk):
         lp = _main_loop(b, bodies[0]) if bodies else None
         ok = bool(ext) and bool(bld) and lp is not None and all(bb in lp[1] for (bb, t, c) in ext)
         n += len(ext)
+        if ok:
+            # every rendered pass is accumulated: from the body call no path reaches the loop head or leaves the loop
+            # without passing the `did this pass produce a box` test that guards extend()
+            h, blocks = lp
+            tests = set()
+            for (eb, et, ec) in ext:
+                for (a, x) in D.dominating_edges(b, eb):
+                    sd = R.switch_discr_place(b, a) if (a in blocks and b.term(a)["k"] == "switch") else None
+                    if sd is not None and sd[1].replace(" ", "").startswith("std::option::Option<svgdx::position::BoundingBox>"):
+                        tests.add(a)
+            tests = {a for a in tests if all(b.dominates(bodies[0], a) for _ in [0])}
+            exits = {x for y in blocks for x in b.succs(y) if x not in blocks and _normal_exit(b, x)}
+            starts = [b.term(bodies[0])["t"]] if b.term(bodies[0]).get("t") is not None else []
+            skipped = bool(tests) and bool(b.reach(starts, avoid=tests) & (exits | {h}))
+            chk.ob(bool(tests) and not skipped, "A16.extent-accumulation", what + ":every-pass", b.where(h), f"{what}: every pass whose body was rendered contributes its box before the loop continues or ends", f"{what}: a pass can end (or the loop can be left) after rendering its body without adding the body's box to the accumulated extent - e.g. the last pass of an `until` loop is drawn but not counted in the root extent")
         chk.ob(ok, "A16.extent-accumulation", what, b.where(), f"{what} unions the boxes of all passes with BoundingBoxBuilder (extend in the loop, build at the end)", f"{what} no longer accumulates its extent with BoundingBoxBuilder::extend/build like the other repeating elements: a pass that renders nothing, or the first pass, can drop the accumulated extent")
